@@ -369,6 +369,12 @@ func xyRefusedCalls(c *fw.Ctx) {
 	try(func() { xy.DistanceFromLineToLine(p, q, short, nil) })
 	try(func() { xy.OrientationIndex(p, short, q) })
 	try(func() { bigxy.OrientationIndex(nil, p, q) })
+	// lines that have no single intersection point (parallel, identical, zero length)
+	for _, q4 := range [][8]float64{{0, 0, 4, 0, 0, 1, 4, 1}, {0, 0, 0, 4, 1, 0, 1, 4}, {0, 0, 4, 4, 0, 0, 4, 4}, {1, 1, 1, 1, 2, 2, 2, 2}, {0, 0, 4, 0, 1, 0, 9, 0}} {
+		try(func() {
+			bigxy.Intersection(geom.Coord{q4[0], q4[1]}, geom.Coord{q4[2], q4[3]}, geom.Coord{q4[4], q4[5]}, geom.Coord{q4[6], q4[7]})
+		})
+	}
 	try(func() { lineintersector.LineIntersectsLine(lineintersector.RobustLineIntersector{}, p, q, short, p) })
 	try(func() { lineintersector.LineIntersectsLine(lineintersector.NonRobustLineIntersector{}, p, nil, q, p) })
 	try(func() { lineintersector.PointIntersectsLine(lineintersector.RobustLineIntersector{}, short, p, q) })
